@@ -70,7 +70,9 @@ fn leaf_future(ctx: &Ctx, env: &mut Env, leaf: &Leaf) -> BoxFuture<'static, u32>
 }
 
 fn run_script(ctx: Ctx, code: Arc<Vec<Instr>>, mut env: Env) -> BoxFuture<'static, ()> {
+    let token = crate::dsl::new_token(env.inst, env.tid);
     async move {
+        let _token = token;
         let mut pc: usize = 0;
         while pc < code.len() {
             match &code[pc] {
